@@ -146,11 +146,26 @@ func ZZH_C18_PlaceholderAcrossRuns() {
 	b2 := b1 + zzvChoice(len(full)+1-b1)
 	cuts := []int{0, b1, b2, len(full)}
 	colors := []string{"c0", "c1", "c2"}
+	// which formatting attribute tells the three runs apart is a solver choice
+	attr := zzvChoice(zzvBound("format_attributes", 3, 5))
 	para := &Paragraph{}
 	colorAt := make([]string, len(full))
 	for i := 0; i < 3; i++ {
 		txt := full[cuts[i]:cuts[i+1]]
-		para.Runs = append(para.Runs, Run{Text: Text{Content: txt}, Properties: &RunProperties{Color: &Color{Val: colors[i]}}})
+		rp := &RunProperties{}
+		switch attr {
+		case 0:
+			rp.Color = &Color{Val: colors[i]}
+		case 1:
+			rp.Highlight = &Highlight{Val: colors[i]}
+		case 2:
+			rp.FontSize = &FontSize{Val: colors[i]}
+		case 3:
+			rp.FontFamily = &FontFamily{ASCII: colors[i]}
+		case 4:
+			rp.Underline = &Underline{Val: colors[i]}
+		}
+		para.Runs = append(para.Runs, Run{Text: Text{Content: txt}, Properties: rp})
 		for j := cuts[i]; j < cuts[i+1]; j++ {
 			colorAt[j] = colors[i]
 		}
@@ -203,8 +218,23 @@ func ZZH_C18_PlaceholderAcrossRuns() {
 	var got []ch
 	for _, r := range para.Runs {
 		c := ""
-		if r.Properties != nil && r.Properties.Color != nil {
-			c = r.Properties.Color.Val
+		if rp := r.Properties; rp != nil {
+			// the formatting signature of the run: every attribute that is set
+			if rp.Color != nil {
+				c += rp.Color.Val
+			}
+			if rp.Highlight != nil {
+				c += rp.Highlight.Val
+			}
+			if rp.FontSize != nil {
+				c += rp.FontSize.Val
+			}
+			if rp.FontFamily != nil {
+				c += rp.FontFamily.ASCII
+			}
+			if rp.Underline != nil {
+				c += rp.Underline.Val
+			}
 		}
 		t := r.Text.Content
 		for k := 0; k < len(t); k++ {
